@@ -158,6 +158,16 @@ def run(ctx):
         for case in got[1]:
             if case['opcode']:
                 writer.setdefault(case['opcode'], []).append((meth, case))
+    # every accepting path of every serializer override writes its instruction (a call that is tracked but not written
+    # cannot be replayed: the replayed machine state falls behind the serializer's)
+    for meth in PM.INTERP_METHODS:
+        got = w.serializer_cases(meth)
+        if got is None:
+            continue
+        silent = [c for c in got[1] if c['opcode'] is None]
+        ctx.ob('writer-emits', meth, not silent,
+               f'SerializingInterpreter.{meth} has a path (under {[show(c) for c, _b in silent[0]["conds"]] if silent else ""}) that updates the '
+               f'tracked state but writes no instruction', py.where(w.top.module, got[0].node))
     ev = PyEval()
     env0 = {'interpreter': INTERP, 'data': ('param', 'data')}
     for op in sorted(writer):
@@ -186,6 +196,8 @@ def run(ctx):
         if op == 'Publish':
             publish_phases(ctx, py, acc, calls_per_path, where)
             continue
+        if op == 'Instantiate':
+            instantiate_pairing(ctx, py, calls_per_path, where)
         # (1) layout
         rd: list = []
         seen = set()
@@ -264,6 +276,8 @@ def run(ctx):
     ctx.analysed['reader branches'] = len(handled)
     ctx.floor('reader-table', 22)
     ctx.floor('reader-layout', 18)
+    ctx.floor('reader-pairing', 2)
+    ctx.floor('writer-emits', 24)
     ctx.explanation = (
         'Writer/reader table agreement between SerializingInterpreter and deserialize_instructions, both extracted from the ast on every '
         'run: every written opcode has a reader branch; operand layouts are equal; the replayed interpreter call writes the same opcode '
@@ -271,6 +285,86 @@ def run(ctx):
         'types match; Publish has a branch per phase calling that phase\'s publish method; the decoding loop ends only on end of input and '
         'unknown bytes raise. Equality of the replayed state on concrete modules is not observed.')
     ctx.assumptions = ['python ast is faithful', 'tracker slot bindings as extracted for C04/C02']
+
+
+def seq_order(v, n_name):
+    """tiny algebra over the sequences of the Instantiate branch.  -> ('ids'|'slots', 'fwd'|'rev') | ('pairs', a, b, order) | ('unordered', why) | None
+    canonical forward order: ids as read from the stream; stack slots from the top downwards"""
+    if v[0] == 'comp' and v[1] in ('listcomp', 'gen') and v[2][0] == 'call' and v[2][1] == ('name', 'next_byte') and len(v[3]) == 1:
+        return ('ids', 'fwd')
+    if v[0] == 'sub' and v[1] == ISTACK and v[2][0] == 'slice':
+        lo, hi = v[2][1], v[2][2]
+        # stack[-(n + 1):-1]  = the n items below the top, bottom to top
+        if hi == ('const', -1) and lo is not None and lo[0] == 'unop' and lo[1] == 'USub':
+            return ('slots', 'rev')
+        return None
+    if v[0] == 'call' and v[1][0] == 'name':
+        f, args = v[1][1], v[2]
+        if f in ('list', 'tuple', 'iter') and len(args) == 1:
+            return seq_order(args[0], n_name)
+        if f == 'map' and len(args) == 2:
+            return seq_order(args[1], n_name)
+        if f == 'reversed' and len(args) == 1:
+            inner = seq_order(args[0], n_name)
+            if inner is None:
+                return None
+            if inner[0] == 'pairs':
+                return ('pairs', inner[1], inner[2], 'rev' if inner[3] == 'fwd' else 'fwd')
+            if inner[0] == 'unordered':
+                return inner
+            return (inner[0], 'rev' if inner[1] == 'fwd' else 'fwd')
+        if f == 'sorted' and len(args) >= 1:
+            inner = seq_order(args[0], n_name)
+            return ('unordered', f'{inner[0] if inner else "values"} are re-ordered by value (sorted)')
+        if f == 'zip' and len(args) == 2:
+            a, b = seq_order(args[0], n_name), seq_order(args[1], n_name)
+            if a is None or b is None:
+                return None
+            if 'unordered' in (a[0], b[0]):
+                return a if a[0] == 'unordered' else b
+            return ('pairs', a, b, 'fwd')
+        if f == 'dict' and len(args) == 1:
+            return seq_order(args[0], n_name)
+    return None
+
+
+def instantiate_pairing(ctx, py, calls_per_path, where):
+    """the writer pairs the i-th id with the i-th value from the top of the stack (C02 id-plug-pairing); the reader must rebuild the
+    map with the same pairing, and insert the entries bottom-to-top (the order the tracker compares delta.values() with)"""
+    n = 0
+    for p, calls in calls_per_path:
+        for c in calls:
+            if c[1][2] not in ('instantiate', 'instantiate_pattern') or len(c[2]) < 2:
+                continue
+            n += 1
+            so = seq_order(c[2][1], None)
+            ok, why = False, f'cannot establish how ids and stack slots are paired in {show(c[2][1])[:80]}'
+            undecided = so is None
+            if so is not None:
+                if so[0] == 'unordered':
+                    ok, why = False, f'{so[1]} before being paired with the stack slots: the i-th id no longer meets the i-th plug'
+                elif so[0] == 'pairs':
+                    a, b, order = so[1], so[2], so[3]
+                    kinds = {a[0], b[0]}
+                    if kinds != {'ids', 'slots'}:
+                        ok, why = False, 'the map is not built from the ids read and the stack slots'
+                    else:
+                        ids = a if a[0] == 'ids' else b
+                        slots = b if a[0] == 'ids' else a
+                        positional = ids[1] == slots[1]          # i-th id <-> i-th from the top (both forward or both reversed)
+                        # insertion order: zip runs in the direction of its operands; `order` flips it once more
+                        zip_dir = ids[1]                          # 'fwd' = top first
+                        final_dir = zip_dir if order == 'fwd' else ('rev' if zip_dir == 'fwd' else 'fwd')
+                        bottom_up = final_dir == 'rev'
+                        ok = positional and bottom_up
+                        why = ('' if ok else
+                               ('the i-th id read is paired with the i-th slot from the BOTTOM of the plug run; the serializer (and the checker) '
+                                'pair it with the i-th from the top' if not positional else
+                                'the entries are inserted top-first; the tracker compares list(delta.values()) with the stack bottom-to-top'))
+            if undecided:
+                raise AnalysisError('deserialize_instructions/Instantiate: ' + why)
+            ctx.ob('reader-pairing', f'Instantiate/{c[1][2]}', ok, why, where, facts={'sequence': str(so)})
+    return n
 
 
 def _slot_txt(s):
